@@ -884,27 +884,36 @@ static void task_entry() {
 	abort();
 }
 
+// Strings of a verdict produced in signal context are staged in static buffers and turned into std::strings after the
+// handler has been left (no allocation in signal context); a handler that faults itself gives up with a diagnostic.
+static char sig_cls[64], sig_msg[256], sig_stop[96];
+static volatile int sig_pending = 0, crash_depth = 0;
+static void sig_flush(Run &r) {
+	if (sig_pending & 1) { r.res.v.cls = sig_cls; r.res.v.msg = sig_msg; }
+	if (sig_pending & 2) r.res.stop_reason = sig_stop;
+	sig_pending = 0; crash_depth = 0;
+}
 static void crash_handler(int sig, siginfo_t *si, void *) {
 	Run *r = R;
+	if (++crash_depth > 3) { static const char m[] = "simrt: crash handler re-entered (fault inside the handler); giving up\n"; if (write(2, m, sizeof m - 1)) {} _exit(71); }
 	const char *name = sig == SIGSEGV ? "SIGSEGV" : sig == SIGBUS ? "SIGBUS" : sig == SIGILL ? "SIGILL" : sig == SIGFPE ? "SIGFPE" : "SIG?";
-	if (prep_armed) { if (sig == SIGSEGV && prep_engine && prep_engine->on_fault(si->si_addr) == 1) return; siglongjmp(prep_jb, 1); }
+	if (prep_armed) { if (sig == SIGSEGV && prep_engine && prep_engine->on_fault(si->si_addr) == 1) { crash_depth--; return; } crash_depth = 0; siglongjmp(prep_jb, 1); }
 	if (!r || !r->active) { signal(sig, SIG_DFL); raise(sig); return; }
 	if (sig == SIGSEGV) {
 		int h = r->eng->on_fault(si->si_addr);
-		if (h == 1) return;
+		if (h == 1) { crash_depth--; return; }
 		if (h == 2) {
-			r->res.stopped = true; r->res.stop_reason = "engine resource budget (lazily committed pages)";
+			r->res.stopped = true; snprintf(sig_stop, sizeof sig_stop, "engine resource budget (lazily committed pages)"); sig_pending |= 2;
 			if (r->cur != 0) { r->cur = 0; setcontext(&r->main_ctx); }
 			if (crash_jb_armed) siglongjmp(crash_jb, 1);
 			_exit(70);
 		}
 	}
 	if (!r->res.v.set) {
-		r->res.v.set = true; r->res.v.cls = std::string("crash:") + name;
-		char buf[160];
+		r->res.v.set = true; snprintf(sig_cls, sizeof sig_cls, "crash:%s", name);
 		bool ina = in_arena(si->si_addr);
-		snprintf(buf, sizeof buf, "code under test raised %s (fault address %s+0x%llx)", name, ina ? "arena" : "abs", (unsigned long long)(ina ? off(si->si_addr) : (sig == SIGSEGV || sig == SIGBUS ? (uint64_t)si->si_addr : 0)));
-		r->res.v.msg = buf; r->res.v.step = r->steps; r->res.v.task = r->cur;
+		snprintf(sig_msg, sizeof sig_msg, "code under test raised %s (fault address %s+0x%llx)", name, ina ? "arena" : "abs", (unsigned long long)(ina ? off(si->si_addr) : (sig == SIGSEGV || sig == SIGBUS ? (uint64_t)si->si_addr : 0)));
+		sig_pending |= 1; r->res.v.step = r->steps; r->res.v.task = r->cur;
 		r->res.v.opid = r->tasks[r->cur].opid; r->res.v.opkind = r->tasks[r->cur].opkind;
 	}
 	if (r->cur != 0) { r->cur = 0; setcontext(&r->main_ctx); }
@@ -921,9 +930,9 @@ static void watchdog_handler(int, siginfo_t *, void *) {
 	if (wd_idle < 3) return;
 	wd_idle = 0;
 	if (!r->res.v.set) {
-		r->res.v.set = true; r->res.v.cls = "no_progress";
-		r->res.v.msg = "the code under test consumed more than 3 s of CPU without reaching any instrumented access (a loop with no shared-memory access that cannot be left)";
-		r->res.v.step = r->steps; r->res.v.task = r->cur; r->res.v.opid = r->tasks[r->cur].opid; r->res.v.opkind = r->tasks[r->cur].opkind;
+		r->res.v.set = true; snprintf(sig_cls, sizeof sig_cls, "no_progress");
+		snprintf(sig_msg, sizeof sig_msg, "the code under test consumed more than 3 s of CPU without reaching any instrumented access (a loop with no shared-memory access that cannot be left)");
+		sig_pending |= 1; r->res.v.step = r->steps; r->res.v.task = r->cur; r->res.v.opid = r->tasks[r->cur].opid; r->res.v.opkind = r->tasks[r->cur].opkind;
 	}
 	if (r->cur != 0) { r->cur = 0; setcontext(&r->main_ctx); }
 	if (crash_jb_armed) siglongjmp(crash_jb, 1);
@@ -933,8 +942,10 @@ static void install_handlers() {
 	static bool done = false;
 	if (done) return;
 	done = true;
-	static char altstack[1 << 16];
-	stack_t ss; ss.ss_sp = altstack; ss.ss_size = sizeof altstack; ss.ss_flags = 0;
+	// (a signal frame alone is ~12 KiB on CPUs with AMX state, and handlers nest: SIGPROF inside SIGSEGV inside a lazily committed page fault)
+	static const size_t ALT = 1 << 20;
+	char *altstack = (char *)mmap(nullptr, ALT, PROT_READ | PROT_WRITE, MAP_PRIVATE | MAP_ANONYMOUS, -1, 0);
+	stack_t ss; ss.ss_sp = altstack; ss.ss_size = ALT; ss.ss_flags = 0;
 	sigaltstack(&ss, nullptr);
 	struct sigaction sa; memset(&sa, 0, sizeof sa);
 	sa.sa_sigaction = crash_handler; sa.sa_flags = SA_SIGINFO | SA_ONSTACK | SA_NODEFER;
@@ -1050,6 +1061,7 @@ RunResult execute(Engine *e, const Plan &p) {
 	}
 	crash_jb_armed = false;
 	r.cur = 0;
+	sig_flush(r);
 	try { e->cleanup(); } catch (...) {}
 	r.active = false;
 	r.res.steps = r.steps;
